@@ -5,9 +5,9 @@ package main
 
 import (
 	"fmt"
-	"os"
 	"go/types"
 	"math"
+	"os"
 	"sort"
 	"strconv"
 	"strings"
@@ -24,26 +24,26 @@ var externals = map[string]externalFn{}
 func init() {
 	for k, v := range map[string]externalFn{
 		// bytealg
-		"internal/bytealg.IndexByte":       extIndexByte,
-		"internal/bytealg.IndexByteString": extIndexByte,
-		"internal/bytealg.Count":           extCount,
-		"internal/bytealg.CountString":     extCount,
-		"internal/bytealg.Equal":           extBytesEqual,
-		"internal/bytealg.Compare":         extCompare,
-		"internal/bytealg.CompareString":   extCompare,
-		"internal/bytealg.Index":           extIndex,
-		"internal/bytealg.IndexString":     extIndex,
-		"internal/bytealg.MakeNoZero":      extMakeNoZero,
-		"internal/bytealg.Cutover":         func(fr *frame, a []value) value { return 4 },
-		"bytes.Equal":                      extBytesEqual,
-		"internal/stringslite.Index":       nil,
-		"internal/abi.NoEscape":            func(fr *frame, a []value) value { return a[0] },
-		"internal/abi.FuncPCABIInternal":   func(fr *frame, a []value) value { return uintptr(0) },
-		"internal/abi.Escape":              nil,
-		"internal/race.Enabled":            nil,
-		"internal/godebug.(*Setting).Value": func(fr *frame, a []value) value { return "" },
+		"internal/bytealg.IndexByte":                extIndexByte,
+		"internal/bytealg.IndexByteString":          extIndexByte,
+		"internal/bytealg.Count":                    extCount,
+		"internal/bytealg.CountString":              extCount,
+		"internal/bytealg.Equal":                    extBytesEqual,
+		"internal/bytealg.Compare":                  extCompare,
+		"internal/bytealg.CompareString":            extCompare,
+		"internal/bytealg.Index":                    extIndex,
+		"internal/bytealg.IndexString":              extIndex,
+		"internal/bytealg.MakeNoZero":               extMakeNoZero,
+		"internal/bytealg.Cutover":                  func(fr *frame, a []value) value { return 4 },
+		"bytes.Equal":                               extBytesEqual,
+		"internal/stringslite.Index":                nil,
+		"internal/abi.NoEscape":                     func(fr *frame, a []value) value { return a[0] },
+		"internal/abi.FuncPCABIInternal":            func(fr *frame, a []value) value { return uintptr(0) },
+		"internal/abi.Escape":                       nil,
+		"internal/race.Enabled":                     nil,
+		"internal/godebug.(*Setting).Value":         func(fr *frame, a []value) value { return "" },
 		"internal/godebug.(*Setting).IncNonDefault": func(fr *frame, a []value) value { return nil },
-		"internal/godebug.New": func(fr *frame, a []value) value { return (*value)(nil) },
+		"internal/godebug.New":                      func(fr *frame, a []value) value { return (*value)(nil) },
 
 		// math
 		"math.Float64frombits": func(fr *frame, a []value) value { return math.Float64frombits(cint(a[0]).(uint64)) },
@@ -84,22 +84,22 @@ func init() {
 		"os.LookupEnv": func(fr *frame, a []value) value {
 			return tuple{extGetenv(fr, a), false}
 		},
-		"os.Getwd":              func(fr *frame, a []value) value { return tuple{"/cwd", iface{}} },
-		"syscall.Getenv":        func(fr *frame, a []value) value { return tuple{"", false} },
-		"runtime.GC":            func(fr *frame, a []value) value { return nil },
-		"runtime.Gosched":       func(fr *frame, a []value) value { yield("gosched"); return nil },
-		"runtime.GOMAXPROCS":    func(fr *frame, a []value) value { return 1 },
-		"runtime.NumCPU":        func(fr *frame, a []value) value { return 1 },
-		"runtime.KeepAlive":     func(fr *frame, a []value) value { return nil },
-		"runtime.SetFinalizer":  func(fr *frame, a []value) value { return nil },
-		"runtime.Callers":       func(fr *frame, a []value) value { return 0 },
-		"runtime.Caller":        func(fr *frame, a []value) value { return tuple{uintptr(0), "", 0, false} },
-		"runtime.Stack":         func(fr *frame, a []value) value { return 0 },
-		"runtime/debug.Stack":   func(fr *frame, a []value) value { return []value{} },
+		"os.Getwd":                 func(fr *frame, a []value) value { return tuple{"/cwd", iface{}} },
+		"syscall.Getenv":           func(fr *frame, a []value) value { return tuple{"", false} },
+		"runtime.GC":               func(fr *frame, a []value) value { return nil },
+		"runtime.Gosched":          func(fr *frame, a []value) value { yield("gosched"); return nil },
+		"runtime.GOMAXPROCS":       func(fr *frame, a []value) value { return 1 },
+		"runtime.NumCPU":           func(fr *frame, a []value) value { return 1 },
+		"runtime.KeepAlive":        func(fr *frame, a []value) value { return nil },
+		"runtime.SetFinalizer":     func(fr *frame, a []value) value { return nil },
+		"runtime.Callers":          func(fr *frame, a []value) value { return 0 },
+		"runtime.Caller":           func(fr *frame, a []value) value { return tuple{uintptr(0), "", 0, false} },
+		"runtime.Stack":            func(fr *frame, a []value) value { return 0 },
+		"runtime/debug.Stack":      func(fr *frame, a []value) value { return []value{} },
 		"runtime/debug.PrintStack": func(fr *frame, a []value) value { return nil },
-		"time.Sleep":            func(fr *frame, a []value) value { yield("sleep"); return nil },
-		"time.now":              func(fr *frame, a []value) value { return tuple{int64(1700000000), int32(0), int64(1)} },
-		"time.runtimeNano":      func(fr *frame, a []value) value { return int64(1) },
+		"time.Sleep":               func(fr *frame, a []value) value { yield("sleep"); return nil },
+		"time.now":                 func(fr *frame, a []value) value { return tuple{int64(1700000000), int32(0), int64(1)} },
+		"time.runtimeNano":         func(fr *frame, a []value) value { return int64(1) },
 
 		// sync
 		"(*sync.Mutex).Lock":      extMutexLock,
@@ -107,8 +107,8 @@ func init() {
 		"(*sync.Mutex).TryLock":   func(fr *frame, a []value) value { return true },
 		"(*sync.RWMutex).Lock":    extMutexLock,
 		"(*sync.RWMutex).Unlock":  extMutexUnlock,
-		"(*sync.RWMutex).RLock":   extMutexLock,
-		"(*sync.RWMutex).RUnlock": extMutexUnlock,
+		"(*sync.RWMutex).RLock":   func(fr *frame, a []value) value { sched.rlock(a[0].(*value)); return nil },
+		"(*sync.RWMutex).RUnlock": func(fr *frame, a []value) value { sched.runlock(a[0].(*value)); return nil },
 		"(*sync.Once).Do":         extOnceDo,
 		"(*sync.Pool).Get":        extPoolGet,
 		"(*sync.Pool).Put":        func(fr *frame, a []value) value { return nil },
@@ -117,34 +117,34 @@ func init() {
 		"(*sync.WaitGroup).Wait":  extWGWait,
 
 		// atomic
-		"sync/atomic.LoadInt32":   extAtomicLoad,
-		"sync/atomic.LoadInt64":   extAtomicLoad,
-		"sync/atomic.LoadUint32":  extAtomicLoad,
-		"sync/atomic.LoadUint64":  extAtomicLoad,
-		"sync/atomic.LoadUintptr": extAtomicLoad,
-		"sync/atomic.LoadPointer": extAtomicLoad,
-		"sync/atomic.StoreInt32":  extAtomicStore,
-		"sync/atomic.StoreInt64":  extAtomicStore,
-		"sync/atomic.StoreUint32": extAtomicStore,
-		"sync/atomic.StoreUint64": extAtomicStore,
-		"sync/atomic.StoreUintptr": extAtomicStore,
-		"sync/atomic.StorePointer": extAtomicStore,
-		"sync/atomic.AddInt32":    extAtomicAdd,
-		"sync/atomic.AddInt64":    extAtomicAdd,
-		"sync/atomic.AddUint32":   extAtomicAdd,
-		"sync/atomic.AddUint64":   extAtomicAdd,
-		"sync/atomic.AddUintptr":  extAtomicAdd,
+		"sync/atomic.LoadInt32":             extAtomicLoad,
+		"sync/atomic.LoadInt64":             extAtomicLoad,
+		"sync/atomic.LoadUint32":            extAtomicLoad,
+		"sync/atomic.LoadUint64":            extAtomicLoad,
+		"sync/atomic.LoadUintptr":           extAtomicLoad,
+		"sync/atomic.LoadPointer":           extAtomicLoad,
+		"sync/atomic.StoreInt32":            extAtomicStore,
+		"sync/atomic.StoreInt64":            extAtomicStore,
+		"sync/atomic.StoreUint32":           extAtomicStore,
+		"sync/atomic.StoreUint64":           extAtomicStore,
+		"sync/atomic.StoreUintptr":          extAtomicStore,
+		"sync/atomic.StorePointer":          extAtomicStore,
+		"sync/atomic.AddInt32":              extAtomicAdd,
+		"sync/atomic.AddInt64":              extAtomicAdd,
+		"sync/atomic.AddUint32":             extAtomicAdd,
+		"sync/atomic.AddUint64":             extAtomicAdd,
+		"sync/atomic.AddUintptr":            extAtomicAdd,
 		"sync/atomic.CompareAndSwapInt32":   extAtomicCAS,
 		"sync/atomic.CompareAndSwapInt64":   extAtomicCAS,
 		"sync/atomic.CompareAndSwapUint32":  extAtomicCAS,
 		"sync/atomic.CompareAndSwapUint64":  extAtomicCAS,
 		"sync/atomic.CompareAndSwapUintptr": extAtomicCAS,
 		"sync/atomic.CompareAndSwapPointer": extAtomicCAS,
-		"sync/atomic.SwapInt32":   extAtomicSwap,
-		"sync/atomic.SwapInt64":   extAtomicSwap,
-		"sync/atomic.SwapUint32":  extAtomicSwap,
-		"sync/atomic.SwapUint64":  extAtomicSwap,
-		"sync/atomic.SwapPointer": extAtomicSwap,
+		"sync/atomic.SwapInt32":             extAtomicSwap,
+		"sync/atomic.SwapInt64":             extAtomicSwap,
+		"sync/atomic.SwapUint32":            extAtomicSwap,
+		"sync/atomic.SwapUint64":            extAtomicSwap,
+		"sync/atomic.SwapPointer":           extAtomicSwap,
 
 		// fmt
 		"fmt.Sprintf":  extSprintf,
@@ -162,11 +162,11 @@ func init() {
 		"(*strings.Builder).String":    extBuilderString,
 		"(*strings.Builder).copyCheck": func(fr *frame, a []value) value { return nil },
 
-		"errors.Is":        extErrorsIs,
-		"encoding/json.Unmarshal": extJSONUnmarshal,
-		"sort.Slice":       extSortSlice,
-		"sort.SliceStable": extSortSlice,
-		"reflect.Swapper":  extSwapper,
+		"errors.Is":                    extErrorsIs,
+		"encoding/json.Unmarshal":      extJSONUnmarshal,
+		"sort.Slice":                   extSortSlice,
+		"sort.SliceStable":             extSortSlice,
+		"reflect.Swapper":              extSwapper,
 		"internal/reflectlite.Swapper": extSwapper,
 
 		// reflect (minimal)
@@ -175,10 +175,10 @@ func init() {
 		// sort with host fast paths is unnecessary: sort runs from SSA.
 
 		// protobuf: structural stand-ins
-		"google.golang.org/protobuf/proto.Equal":                                   extProtoEqual,
-		"github.com/golang/protobuf/proto.Equal":                                   extProtoEqual,
-		"(google.golang.org/protobuf/internal/impl.Export).MessageStringOf":        func(fr *frame, a []value) value { return "<proto message>" },
-		"(*google.golang.org/protobuf/internal/impl.Export).MessageStringOf":       func(fr *frame, a []value) value { return "<proto message>" },
+		"google.golang.org/protobuf/proto.Equal":                             extProtoEqual,
+		"github.com/golang/protobuf/proto.Equal":                             extProtoEqual,
+		"(google.golang.org/protobuf/internal/impl.Export).MessageStringOf":  func(fr *frame, a []value) value { return "<proto message>" },
+		"(*google.golang.org/protobuf/internal/impl.Export).MessageStringOf": func(fr *frame, a []value) value { return "<proto message>" },
 	} {
 		if v != nil {
 			externals[k] = v
@@ -744,6 +744,9 @@ func ndRecovered(fr *frame, f value) (res value) {
 		case exitPanic:
 			res = tuple{true, fmt.Sprintf("EXIT(%d): %s", p.code, p.why)}
 			return
+		case deadlockPanic:
+			res = tuple{true, "DEADLOCK: " + p.msg}
+			return
 		case *runtimeTypeAssertion:
 			panic(r)
 		}
@@ -895,27 +898,42 @@ type task struct {
 
 type taskKilled struct{}
 
+// deadlockPanic: the target can make no further progress (every goroutine blocked, or a
+// Lock of a mutex nobody will release). nd.Recovered reports it like a crash; target
+// recover() does not see it.
+type deadlockPanic struct{ msg string }
+
 type scheduler struct {
-	wg       map[*value]int
-	locks    map[*value]bool
-	taskMode bool
-	tasks    []*task
-	cur      *task
-	abort    interface{}
-	killing  bool
-	exited   chan struct{}
-	switches int
+	wg      map[*value]int
+	locks   map[*value]bool
+	readers map[*value]int
+	// sequential model: go statements run to completion at the spawn point; seqStack holds
+	// the ids of the goroutines currently "running" (innermost last), lockOwner who locked
+	lockOwner map[*value]int
+	seqStack  []int
+	seqNext   int
+	taskMode  bool
+	tasks     []*task
+	cur       *task
+	abort     interface{}
+	killing   bool
+	exited    chan struct{}
+	switches  int
 
 	preemptions  int
 	preemptBound int
 }
 
-var sched = &scheduler{wg: map[*value]int{}, locks: map[*value]bool{}}
+var sched = &scheduler{wg: map[*value]int{}, locks: map[*value]bool{}, readers: map[*value]int{}}
 
 func (s *scheduler) reset() {
 	s.killAll()
 	s.wg = map[*value]int{}
 	s.locks = map[*value]bool{}
+	s.readers = map[*value]int{}
+	s.lockOwner = nil
+	s.seqStack = nil
+	s.seqNext = 0
 	s.taskMode = false
 	s.tasks = nil
 	s.cur = nil
@@ -974,7 +992,7 @@ func (s *scheduler) point(why string) {
 	cur := s.cur
 	r := s.runnable()
 	if len(r) == 0 {
-		s.fail(pathEnd{peUnsupported, "deadlock: no runnable task at " + why})
+		s.fail(deadlockPanic{"every goroutine is blocked (at " + why + ")"})
 		return
 	}
 	// preemption bounding: once the bound is used up a runnable task keeps running
@@ -1040,25 +1058,75 @@ func (s *scheduler) fail(r interface{}) {
 
 func (s *scheduler) lock(p *value) {
 	if !s.taskMode {
+		cur := 0
+		if n := len(s.seqStack); n > 0 {
+			cur = s.seqStack[n-1]
+		}
+		if s.readers[p] > 0 {
+			panic(pathEnd{peUnsupported, "Lock of a read-locked mutex in sequential model"})
+		}
 		if s.locks[p] {
-			panic(pathEnd{peUnsupported, "deadlock: Lock of a held mutex in sequential task model"})
+			owner := s.lockOwner[p]
+			if owner != cur {
+				for _, g := range s.seqStack {
+					if g == owner {
+						// held by a goroutine that is still running and would release it: only
+						// the run-to-completion model of go statements makes this look stuck
+						panic(pathEnd{peUnsupported, "Lock of a mutex held by a spawning goroutine in sequential model"})
+					}
+				}
+				if owner == 0 {
+					panic(pathEnd{peUnsupported, "Lock of a mutex held by the main goroutine in sequential model"})
+				}
+			}
+			// held by this goroutine itself, or left locked by a goroutine that has returned
+			panic(deadlockPanic{"Lock of a mutex that is never released"})
 		}
 		s.locks[p] = true
+		if s.lockOwner == nil {
+			s.lockOwner = map[*value]int{}
+		}
+		s.lockOwner[p] = cur
 		return
 	}
 	s.point("lock")
-	if s.locks[p] {
+	held := func() bool { return s.locks[p] || s.readers[p] > 0 }
+	if held() {
 		cur := s.cur
-		cur.blocked = func() bool { return s.locks[p] }
-		s.point("lock-wait")
-		cur.blocked = nil
-		for s.locks[p] { // woken but lost the race again
-			cur.blocked = func() bool { return s.locks[p] }
+		for held() { // woken but may lose the race again
+			cur.blocked = held
 			s.point("lock-wait")
 			cur.blocked = nil
 		}
 	}
 	s.locks[p] = true
+}
+
+// rlock / runlock: shared holders are counted; they exclude only writers.
+func (s *scheduler) rlock(p *value) {
+	if !s.taskMode {
+		if s.locks[p] {
+			panic(pathEnd{peUnsupported, "RLock of a write-locked mutex in sequential model"})
+		}
+		s.readers[p]++
+		return
+	}
+	s.point("rlock")
+	cur := s.cur
+	for s.locks[p] {
+		cur.blocked = func() bool { return s.locks[p] }
+		s.point("rlock-wait")
+		cur.blocked = nil
+	}
+	s.readers[p]++
+}
+
+func (s *scheduler) runlock(p *value) {
+	if s.readers[p] <= 0 {
+		panic(targetPanic{iface{types.Typ[types.String], "sync: RUnlock of unlocked RWMutex"}})
+	}
+	s.readers[p]--
+	s.point("runlock")
 }
 
 func (s *scheduler) unlock(p *value) {
@@ -1090,7 +1158,10 @@ func yield(point string) { sched.point(point) }
 func spawn(fr *frame, instr *ssa.Go, fn value, args []value) {
 	if !sched.taskMode {
 		savedDepth := ex.depth
-		defer func() { ex.depth = savedDepth }()
+		sched.seqNext++
+		sched.seqStack = append(sched.seqStack, sched.seqNext)
+		n := len(sched.seqStack)
+		defer func() { ex.depth = savedDepth; sched.seqStack = sched.seqStack[:n-1] }()
 		call(fr.i, nil, instr.Pos(), fn, args)
 		return
 	}
